@@ -230,7 +230,10 @@ class StreamReaderBufferedProtocol(asyncio.BufferedProtocol):
 
     def get_buffer(self, sizehint: int) -> WriteableBuffer:
         if (external_buffer_view := self.__external_buffer_view) is not None:
-            return external_buffer_view
+            if (waiter := self.__read_waiter) is not None and not waiter.done():
+                return external_buffer_view
+            # The waiting task has been cancelled but did not wake up yet. It will never look at its buffer.
+            self.__external_buffer_view = None
         # Ignore sizehint, the buffer is already at its maximum size.
         # Returns unused buffer part
         if self.__buffer is None:
@@ -344,6 +347,12 @@ class StreamReaderBufferedProtocol(asyncio.BufferedProtocol):
                 self.__external_buffer_view = external_buffer
                 try:
                     nbytes_written_in_external_buffer = await self.__read_waiter
+                except BaseException:
+                    if external_buffer is not None:
+                        # The task has been cancelled after buffer_updated() but before the wakeup.
+                        # Do not lose the data already written in the external buffer.
+                        self._save_external_buffer_data(self.__read_waiter, external_buffer)
+                    raise
                 finally:
                     self.__external_buffer_view = None
         finally:
@@ -352,6 +361,25 @@ class StreamReaderBufferedProtocol(asyncio.BufferedProtocol):
         if nbytes_written_in_external_buffer is None:
             self._check_for_connection_lost()
         return nbytes_written_in_external_buffer
+
+    def _save_external_buffer_data(self, waiter: asyncio.Future[int | None], external_buffer: WriteableBuffer) -> None:
+        if not waiter.done() or waiter.cancelled() or waiter.exception() is not None:
+            return
+        if not (nbytes := waiter.result()) or self.__buffer is None:
+            return
+        start = self.__buffer_nbytes_written
+        end = start + nbytes
+        if end > self.__buffer_view.nbytes:
+            # Should not happen with the buffers used internally.
+            new_buffer = bytearray(end)
+            new_buffer[:start] = self.__buffer_view[:start]
+            self.__buffer_view.release()
+            self.__buffer = new_buffer
+            self.__buffer_view = memoryview(new_buffer)
+        with memoryview(external_buffer) as external_buffer_view:
+            self.__buffer_view[start:end] = external_buffer_view.cast("B")[:nbytes]
+        self.__buffer_nbytes_written = end
+        self._maybe_pause_transport()
 
     def _read_waiter_fut(self, set_result_cb: Callable[[asyncio.Future[int | None]], None]) -> None:
         if (waiter := self.__read_waiter) is not None:
